@@ -457,7 +457,12 @@ Section Node.
     | Some f =>
         let py := pyramid_cids f in
         let hashs := filter (fun k => match aget k py with Some _ => false | None => true end) (f_trie f) in
-        let s1 := w_store s (sdel_all removed (store s)) in
+        (* a root the pyramid table does not know is registered first ([initChunkPyramid]
+           returns at once for a known root), so that the reference counts include it *)
+        let '(s0, okp) := init_chunk_pyramid s R in
+        if negb okp then (s0, RErr)
+        else
+        let s1 := w_store s0 (sdel_all removed (store s0)) in
         if negb ok then (s1, RErr)
         else
           (* delRootCid *)
